@@ -205,6 +205,9 @@ func mkBin(op Op, x, y *Term) *Term {
 	}
 	switch op {
 	case OpAdd, OpOr, OpXor:
+		if x.isConst() && !y.isConst() {
+			x, y = y, x
+		}
 		if x.isConst() && x.val == 0 {
 			return y
 		}
@@ -223,6 +226,15 @@ func mkBin(op Op, x, y *Term) *Term {
 		}
 		if x == y {
 			return mkConst(0, w)
+		}
+		// (a + c) - a = c ; (a + c1) - (a + c2) = c1 - c2
+		if x.op == OpAdd && x.args[1].isConst() {
+			if x.args[0] == y {
+				return x.args[1]
+			}
+			if y.op == OpAdd && y.args[1].isConst() && x.args[0] == y.args[0] {
+				return mkConst(x.args[1].val-y.args[1].val, w)
+			}
 		}
 	case OpAnd:
 		if x.isConst() {
